@@ -3,6 +3,7 @@
   (`line`, fades, `ones`, `zeros`, `impulse`, `adsr`, `attack`).
 -/
 import ALV.Lemmas.C19
+import Mathlib.Tactic.NormNum
 
 namespace ALV.C19
 set_option linter.unusedSectionVars false
@@ -188,5 +189,58 @@ theorem attack_strm_ok (a d x : K) (xs : List K) (n : Nat) (ha : a ≠ 0) (hd : 
     attack a d (.strm (x :: xs)) n = .ok (attackSpec a d x xs n) := by
   simp only [attack, attackSpec, ha, hd, or_self, if_false, attack_head, List.head?_cons,
     List.tail_cons]
+
+/-! ### `rint` (duration of the noise generators) -/
+
+theorem rint_toNat (x : K) : (rint x).toNat = durLen x := by
+  unfold rint durLen
+  simp only [floor_def]
+  have hfl := Int.floor_le x
+  have hlt := Int.lt_floor_add_one x
+  have herr : (half : K) / (1 + 1 + 1 + 1 + 1) = 1 / 10 := by rw [half_eq]; norm_num
+  rw [herr, half_eq]
+  rcases lt_trichotomy x 0 with hx | hx | hx
+  · -- negative: no sample either way
+    have hd : ⌊x⌋ ≤ -1 := by
+      have : ⌊x⌋ < 0 := Int.floor_lt.mpr (by simpa using hx)
+      omega
+    have hdK : ((⌊x⌋ : ℤ) : K) ≤ -1 := by exact_mod_cast hd
+    have h1 : ⌊x + 1 / 2⌋ ≤ 0 := by
+      have : ⌊x + 1 / 2⌋ < 1 := Int.floor_lt.mpr (by push_cast; linarith)
+      omega
+    have h2 : ∀ b : Bool, pyInt (if b = true then ((⌊x⌋ : ℤ) : K) - 1 / 10 + 1 else ((⌊x⌋ : ℤ) : K) - 1 / 10) ≤ 0 := by
+      intro b
+      have hneg : (if b = true then ((⌊x⌋ : ℤ) : K) - 1 / 10 + 1 else ((⌊x⌋ : ℤ) : K) - 1 / 10) < 0 := by
+        split <;> linarith
+      unfold pyInt
+      rw [if_pos hneg]
+      have : 0 ≤ ⌊-(if b = true then ((⌊x⌋ : ℤ) : K) - 1 / 10 + 1 else ((⌊x⌋ : ℤ) : K) - 1 / 10)⌋ :=
+        Int.floor_nonneg.mpr (by linarith)
+      rw [floor_def]; omega
+    simp only [not_lt.mpr hx.le, if_false, hx, if_true]
+    have := h2 (decide (1 < (1 + 1) * (x - ((⌊x⌋ : ℤ) : K))))
+    omega
+  · subst hx
+    have e0 : ⌊(0 : K) + 1 / 2⌋ = 0 := by rw [Int.floor_eq_iff]; norm_num
+    have hdec : decide (¬ ((1 : K) + 1) * ((0 : K) - ((⌊(0 : K)⌋ : ℤ) : K)) < 1) = false :=
+      decide_eq_false (not_not_intro (by simp))
+    simp only [lt_irrefl, if_false, hdec, Bool.false_eq_true, e0]
+    simp [pyInt, floor_def]
+  · have hd : 0 ≤ ⌊x⌋ := Int.floor_nonneg.mpr hx.le
+    have hdK : (0 : K) ≤ ((⌊x⌋ : ℤ) : K) := by exact_mod_cast hd
+    simp only [hx, if_true, not_lt.mpr hx.le, if_false]
+    by_cases hup : ((1 : K) + 1) * (x - ((⌊x⌋ : ℤ) : K)) < 1
+    · have e1 : ⌊x + 1 / 2⌋ = ⌊x⌋ := by
+        rw [Int.floor_eq_iff]; constructor <;> linarith
+      have e2 : pyInt (((⌊x⌋ : ℤ) : K) + 1 / 10) = ⌊x⌋ := by
+        rw [pyInt_of_nonneg (by linarith), Int.floor_eq_iff]; constructor <;> linarith
+      rw [decide_eq_false (not_not_intro hup)]
+      simp only [Bool.false_eq_true, if_false, e1, e2]
+    · have e1 : ⌊x + 1 / 2⌋ = ⌊x⌋ + 1 := by
+        rw [Int.floor_eq_iff]; push_cast; constructor <;> linarith
+      have e2 : pyInt (((⌊x⌋ : ℤ) : K) + 1 / 10 + 1) = ⌊x⌋ + 1 := by
+        rw [pyInt_of_nonneg (by linarith), Int.floor_eq_iff]; push_cast; constructor <;> linarith
+      rw [decide_eq_true hup]
+      simp only [if_true, e1, e2]
 
 end ALV.C19
